@@ -342,7 +342,7 @@ _ENUM = _enum_cases()
 
 def gen_case(idx: int, seed: int, tier: str) -> Any:
     if idx == plan(tier)["cases"] - 1:
-        return {"kind": "suite"}  # the repository's own tests as one more workload, with the contract on
+        return {"kind": "suite", "timeout_s": 600}  # the repository's own tests as one more workload, with the contract on
     if idx < len(_ENUM):
         return _ENUM[idx]
     rng = case_rng(PROPERTY, seed, idx)
